@@ -495,7 +495,7 @@ def _check_wiring(R, F, CG):
     st = [x for x in F.fns.values() if x.name.startswith("server::start::start") and x.kind == "coroutine"]
     R.floor("start_body", len(st), 1)
     if st:
-        sf = st[0]
+        sf = F.inlined(st[0])       # start() may group its steps into private helpers (`validate_startup`, `open_engine`)
         cs = {c.path.split("::")[-1]: c for c in sf.calls() if c.path and not sf.is_cleanup(c.bb)}
         for n in ("validate_config", "start_rpc_server"):
             R.ob(n in cs, "WIRE", sf.where(), "WIRE|start|%s" % n, "start() no longer calls %s" % n)
@@ -561,6 +561,9 @@ def _returns_err(fn, path):
 def _err_propagated(fn, call):
     """the call's Result flows into Try::branch whose Break arm reaches from_residual + return"""
     dst = call.t["dest"]["l"]
+    from enginerules import err_propagated as _ep
+    if _ep(fn, call):
+        return True          # also through a helper's tail expression whose Result the caller then `?`s
     for c in fn.calls():
         if c.path and c.path.endswith("Try::branch") and any(a.get("l") == dst for a in c.args):
             return True
